@@ -624,6 +624,17 @@ def rule_los_options(ctx):
         raise AnalysisError("cartposlos2geocentric: radial component of the line of sight not found")
     fixed = False
     fact = "za = %s only" % norm(asin[0].value)
+    # the one-expression form: za = np.where(radial < 0, 180 - A, A) with A = rad2deg(arcsin(ppc / r))
+    v0 = asin[0].value
+    if isinstance(v0, ast.Call) and (dotted(v0.func) or "").split(".")[-1] == "where" and len(v0.args) == 3 and not v0.keywords:
+        t0 = norm(v0.args[0]).replace(" ", "")
+        a1, a2 = (norm(v0.args[1]).replace(" ", ""), norm(v0.args[2]).replace(" ", ""))
+        if t0 in ("%s<0" % radial, "0>%s" % radial) and a1 in ("180-%s" % a2, "180-(%s)" % a2, "180.0-%s" % a2) and calls_in(v0.args[2], "arcsin"):
+            fixed = True
+        elif t0 in ("%s>=0" % radial, "0<=%s" % radial) and a2 in ("180-%s" % a1, "180-(%s)" % a1, "180.0-%s" % a1) and calls_in(v0.args[1], "arcsin"):
+            fixed = True
+        if fixed:
+            fact = "%s = %s" % (za, norm(v0)[:110])
     for st in later:
         t_ = norm(st.value).replace(" ", "")
         tgt = norm(st.targets[0]).replace(" ", "")
